@@ -785,9 +785,18 @@ func freshPathBuf(r *engine.Run, rule string) {
 	}
 	rootOf := func(v ssa.Value) ssa.Value {
 		for {
-			v = stripConv(v)
-			if s, ok := v.(*ssa.Slice); ok {
-				v = s.X
+			switch x := v.(type) {
+			case *ssa.ChangeType:
+				v = x.X
+				continue
+			case *ssa.Convert:
+				// []byte <-> named []byte keeps the memory; a conversion to or from string copies
+				if isByteSlice(x.Type()) && isByteSlice(x.X.Type()) {
+					v = x.X
+					continue
+				}
+			case *ssa.Slice:
+				v = x.X
 				continue
 			}
 			return v
@@ -1082,6 +1091,20 @@ func domCollected(r *engine.Run, rule string) {
 				good = true
 			}
 		}
+		if !good {
+			// a trie without a root has nothing to collect: the empty export is the export
+			if facts, ok := engine.FactsOn(f, ret.Block()); ok {
+				for _, ft := range facts {
+					if ft.Kind == "eq" && ft.Truth {
+						for _, pr := range [][2]ssa.Value{{ft.A, ft.B}, {ft.B, ft.A}} {
+							if fld := fieldLoadOf(pr[0]); fld != nil && fld.Name() == "root" && nilConst(pr[1]) {
+								good = true
+							}
+						}
+					}
+				}
+			}
+		}
 		r.Check(good, rule, o.next(fn(f)+"|export returned"), r.P.Pos(ret.Pos()), "the export is returned only after the nodes were collected from the root",
 			"GetPath hands out an export on a path that never collected the trie's nodes (a shortcut in front of the marking and collection): what is exported is not the trie - a non-empty trie that merely looks empty to the shortcut (collapsed root of total weight 0) is exported as the empty trie, and the partial trie built from it has another root")
 	}
@@ -1184,6 +1207,34 @@ func recordsEvery(r *engine.Run, rule string) {
 				if x == b {
 					skipped = true
 					return
+				}
+				// skipping an empty hash is no loss: do not follow the edge taken when len(hash) == 0
+				if iff2, ok := x.Instrs[len(x.Instrs)-1].(*ssa.If); ok {
+					if bo, ok := iff2.Cond.(*ssa.BinOp); ok {
+						isLen := func(v ssa.Value) bool {
+							c, ok := v.(*ssa.Call)
+							if !ok {
+								return false
+							}
+							bi, ok := c.Call.Value.(*ssa.Builtin)
+							return ok && bi.Name() == "len"
+						}
+						zero := func(v ssa.Value) bool { k, ok := intConst(v); return ok && k == 0 }
+						emptyEdge := -1
+						switch {
+						case bo.Op == token.EQL && (isLen(bo.X) && zero(bo.Y) || isLen(bo.Y) && zero(bo.X)):
+							emptyEdge = 0
+						case (bo.Op == token.NEQ || bo.Op == token.GTR) && isLen(bo.X) && zero(bo.Y):
+							emptyEdge = 1
+						}
+						for i, s := range x.Succs {
+							if i == emptyEdge {
+								continue
+							}
+							dfs(s)
+						}
+						return
+					}
 				}
 				for _, s := range x.Succs {
 					dfs(s)
